@@ -55,6 +55,9 @@ type keySharePrivateKeys struct {
 	ecdhe      *ecdh.PrivateKey
 	mlkem      *mlkem.DecapsulationKey768
 	mlkemEcdhe *ecdh.PrivateKey // [uTLS] seperate ecdhe key for pq keyshare in line with Chrome, instead of reusing ecdhe key like stdlib
+	// [uTLS] private keys of the additional classical key shares a ClientHelloSpec
+	// offers besides the first one (held in ecdhe), indexed by group.
+	ecdheExtra map[CurveID]*ecdh.PrivateKey
 }
 
 const x25519PublicKeySize = 32
